@@ -55,13 +55,15 @@ type headRec struct {
 }
 
 type concRun struct {
-	c     *core.Case
-	lim   limits
-	ch    *chain
-	pool  *tx_pool.TxPool
-	clock int64
-	hint  [nConc]uint64 // state nonce of the current head, for the submitters
-	idSeq int64
+	c        *core.Case
+	lim      limits
+	ch       *chain
+	pool     *tx_pool.TxPool
+	clock    int64
+	hint     [nConc]uint64 // state nonce of the current head, for the submitters
+	idSeq    int64
+	progress int64 // submitter calls completed
+	total    int64 // submitter calls planned
 
 	mu         sync.Mutex
 	calls      []*callRec
@@ -75,8 +77,11 @@ type concRun struct {
 
 func (cr *concRun) tick() int64 { return atomic.AddInt64(&cr.clock, 1) }
 
-func (cr *concRun) newTx(r *rand.Rand, g int) *txrec {
+func (cr *concRun) newTx(r *rand.Rand, g int, localCall bool) *txrec {
 	ai := r.Intn(nConc)
+	if localCall {
+		ai = r.Intn(2) // only senders 0 and 1 ever use the local entry points: 2..5 stay remote
+	}
 	a := concAccts[ai]
 	id := int(atomic.AddInt64(&cr.idSeq, 1))
 	nonce := atomic.LoadUint64(&cr.hint[ai]) + uint64(r.Intn(7))
@@ -115,25 +120,28 @@ func (cr *concRun) submitter(g int, r *rand.Rand, calls int, out *[]*callRec) {
 	for i := 0; i < calls; i++ {
 		n := 1 + r.Intn(3)
 		rec := &callRec{G: g}
+		api := []string{"AddRemotes", "AddRemotes", "AddRemotesSync", "AddLocals", "AddRemote", "AddLocal"}[r.Intn(6)]
+		if g >= 2 && (api == "AddLocals" || api == "AddLocal") && r.Intn(4) != 0 {
+			api = "AddRemotes" // most local traffic comes from submitters 0 and 1
+		}
+		localCall := api == "AddLocals" || api == "AddLocal"
+		if api == "AddRemote" || api == "AddLocal" {
+			n = 1
+		}
 		for j := 0; j < n; j++ {
 			if len(mine) > 0 && r.Intn(10) == 0 {
-				rec.Txs = append(rec.Txs, mine[r.Intn(len(mine))]) // resubmission
-				continue
+				if t := mine[r.Intn(len(mine))]; !localCall || (t.from.idx < 2 && !t.black) {
+					rec.Txs = append(rec.Txs, t) // resubmission
+					continue
+				}
 			}
-			t := cr.newTx(r, g)
+			t := cr.newTx(r, g, localCall)
 			mine = append(mine, t)
 			rec.Txs = append(rec.Txs, t)
 		}
 		raw := make([]*types.Transaction, len(rec.Txs))
 		for j, t := range rec.Txs {
 			raw[j] = t.tx
-		}
-		api := []string{"AddRemotes", "AddRemotes", "AddRemotesSync", "AddLocals", "AddRemote", "AddLocal"}[r.Intn(6)]
-		if g >= 2 && (api == "AddLocals" || api == "AddLocal") && r.Intn(4) != 0 {
-			api = "AddRemotes" // most local traffic comes from submitters 0 and 1
-		}
-		if api == "AddRemote" || api == "AddLocal" {
-			raw, rec.Txs = raw[:1], rec.Txs[:1]
 		}
 		rec.API = api
 		rec.Call = cr.tick()
@@ -150,6 +158,7 @@ func (cr *concRun) submitter(g int, r *rand.Rand, calls int, out *[]*callRec) {
 			rec.Errs = []error{cr.pool.AddLocal(raw[0])}
 		}
 		rec.Ret = cr.tick()
+		atomic.AddInt64(&cr.progress, 1)
 		*out = append(*out, rec)
 		if r.Intn(3) == 0 {
 			runtime.Gosched()
@@ -159,8 +168,16 @@ func (cr *concRun) submitter(g int, r *rand.Rand, calls int, out *[]*callRec) {
 
 // headProducer mines blocks out of what the pool offers, forks now and then, moves balances,
 // and publishes every head as a real ChainHeadEvent (one in flight at a time).
+// pace spreads the rounds of a background actor over the submitters' run.
+func (cr *concRun) pace(i, rounds int) {
+	for atomic.LoadInt64(&cr.progress) < cr.total*int64(i)/int64(rounds) {
+		time.Sleep(200 * time.Microsecond)
+	}
+}
+
 func (cr *concRun) headProducer(r *rand.Rand, rounds int) bool {
 	for i := 0; i < rounds; i++ {
+		cr.pace(i, rounds)
 		cur := cr.ch.Head()
 		parent := cur
 		fork := r.Intn(5) == 0 && cur.parent != nil
@@ -220,6 +237,7 @@ func (cr *concRun) headProducer(r *rand.Rand, rounds int) bool {
 
 func (cr *concRun) priceChanger(r *rand.Rand, rounds int, out *[]*callRec) {
 	for i := 0; i < rounds; i++ {
+		cr.pace(i, rounds)
 		p := gasPrices[r.Intn(len(gasPrices))]
 		rec := &callRec{API: "SetGasPrice", Price: p, Call: cr.tick()}
 		cr.pool.SetGasPrice(big.NewInt(p))
@@ -422,6 +440,7 @@ func concurrent(c *core.Case) {
 
 	const submitters = 8
 	callsPer := 30 + r.Intn(30)
+	cr.total = int64(submitters * callsPer)
 	seeds := make([]int64, submitters+2)
 	for i := range seeds {
 		seeds[i] = r.Int63()
